@@ -112,7 +112,7 @@ Proof.
 Qed.
 
 Lemma listing_cases f d : listing f d = OStatus 40 m_listing \/ listing f d = OListing d.
-Proof. unfold listing. destruct (existsb _ _); auto. Qed.
+Proof. unfold listing. destruct (Listing.has_broken f d); auto. Qed.
 
 (* the shape of every run of handle *)
 Inductive handle_shape (c : scfg) (f : fs) (url : str) : sout -> Prop :=
